@@ -844,3 +844,209 @@ def run(chk):       # noqa: F811
     _run_before_tables(chk)
     rule_tables(chk)
     rule_zero_guard(chk)
+
+
+# ---------------------------------------------------------------------------------------------------------------
+# C04.compose: the composition itself, tabulated.  BaseNumberParser.__get_int_value (with the round_number_set that
+# BaseNumberParser.__init__ builds) is interpreted per culture configuration on token lists made of the culture's own
+# standard words (reference lexicon): n x scale, (n x 100 + t) x scale, million-level + thousand-level, and the same
+# with a round ORDINAL word (thousandth, millionth, millième ...) as the last token.  The value must be the arithmetic one.
+
+from .c03 import DigitInterp, MiniInterp, culture_info_code      # noqa: E402
+
+
+class ProbeUnvalued(Exception):
+    """a probe token is in neither the cardinal nor the ordinal map: the parser falls back to resolve_composite_number"""
+
+    def __init__(self, expr, env):
+        Exception.__init__(self, expr)
+        self.token = env.get('match') if isinstance(env, dict) else None
+
+
+class TableInterp(DigitInterp):
+    """DigitInterp + dictionaries (lookup, get, keys, membership) and list repetition"""
+
+    def binop(self, n, op, a, b):
+        if isinstance(op, ast.Mult) and isinstance(a, list) and isinstance(b, int) and not isinstance(b, bool):
+            return a * min(b, 256)
+        return DigitInterp.binop(self, n, op, a, b)
+
+    def ev(self, n, env, depth):
+        if isinstance(n, ast.Subscript) and not isinstance(n.slice, ast.Slice):
+            base = self.ev(n.value, env, depth)
+            if isinstance(base, dict):
+                k = self.ev(n.slice, env, depth)
+                try:
+                    return base[k]
+                except (KeyError, TypeError):
+                    self.fail(n, 'KeyError %r in %s' % (k, ast.unparse(n.value)))
+            # fall through with the already evaluated base is not possible: re-evaluate through the parent
+        if isinstance(n, (ast.ListComp, ast.GeneratorExp)) and len(n.generators) == 1:
+            g = n.generators[0]
+            it = self.ev(g.iter, env, depth)
+            if isinstance(it, dict):
+                inner = dict(env)
+                out = []
+                for x in list(it):
+                    self.assign(g.target, x, inner, depth)
+                    if all(self.ev(c, inner, depth) for c in g.ifs):
+                        out.append(self.ev(n.elt, inner, depth))
+                return out
+        return DigitInterp.ev(self, n, env, depth)
+
+    def evcall(self, n, env, depth):
+        f = n.func
+        if isinstance(f, ast.Attribute) and f.attr in ('get', 'keys', 'values', 'items') and not n.keywords:
+            recv = self.ev(f.value, env, depth)
+            if isinstance(recv, dict):
+                args = [self.ev(a, env, depth) for a in n.args]
+                if f.attr == 'get' and 1 <= len(args) <= 2:
+                    return recv.get(*args)
+                if f.attr == 'keys' and not args:
+                    return list(recv.keys())
+                if f.attr == 'values' and not args:
+                    return list(recv.values())
+                if f.attr == 'items' and not args:
+                    return [[k, v] for k, v in recv.items()]
+        if isinstance(f, ast.Name) and f.id == 'list' and len(n.args) == 1 and not n.keywords:
+            v = self.ev(n.args[0], env, depth)
+            if isinstance(v, dict):
+                return list(v)
+            if isinstance(v, (list, str, range)):
+                return list(v)
+        if isinstance(f, ast.Attribute) and dotted(f) == 'self.config.resolve_composite_number':
+            raise ProbeUnvalued(ast.unparse(n.args[0]) if n.args else '?', env)
+        if isinstance(f, ast.Attribute) and f.attr == 'clear' and not n.args:
+            recv = self.ev(f.value, env, depth)
+            if isinstance(recv, list):
+                recv.clear()
+                return None
+        return DigitInterp.evcall(self, n, env, depth)
+
+
+def compose_probes(lex, rnd, ordi):
+    """token lists from the culture's standard words -> [(tokens, expected integer, kind)]"""
+    card = lex['card']
+
+    def word(v, pool=None):
+        for w, x in card.items():
+            if x == v and ' ' not in w and '-' not in w and (pool is None or w in pool):
+                return w
+        return None
+    one, two, three, five = word(1), word(2), word(3), word(5)
+    fifty = word(50)
+    hundred = next((w for w in lex['scale'] if card[w] == 100), None)
+    thousand = next((w for w in lex['scale'] if card[w] == 1000), None)
+    million = next((w for w in lex['scale'] if card[w] == 10 ** 6 and w in rnd), None)
+    millions = next((w for w in reversed(lex['scale']) if card[w] == 10 ** 6 and w in rnd), million)
+    out = []
+    if hundred and hundred in rnd and two:
+        out.append(([two, hundred], 200, 'cardinal'))
+        if fifty:
+            out.append(([two, hundred, fifty], 250, 'cardinal'))
+    if thousand and two:
+        out.append(([two, thousand], 2000, 'cardinal'))
+        if hundred and hundred in rnd:
+            out.append(([two, hundred, thousand], 200000, 'cardinal'))
+            if fifty:
+                out.append(([two, hundred, fifty, thousand], 250000, 'cardinal'))
+    if millions and three and thousand and five and hundred and hundred in rnd:
+        out.append(([three, millions, five, hundred, thousand], 3500000, 'cardinal'))
+    # round ordinal words: keys of both the ordinal and the round-number map (value >= 1000), singular forms first
+    ro = sorted((w for w in ordi if w in rnd and isinstance(ordi[w], int) and ordi[w] >= 1000 and ordi[w] == rnd[w] and ' ' not in w),
+                key=lambda w: (ordi[w], len(w), w))
+    seen_vals = set()
+    for r in ro:
+        R = ordi[r]
+        if R in seen_vals or R > 10 ** 9:
+            continue
+        seen_vals.add(R)
+        if two:
+            out.append(([two, r], 2 * R, 'ordinal'))
+        if hundred and hundred in rnd and one and two:
+            out.append(([one if one != hundred else two, hundred, r], 100 * R, 'ordinal'))
+            if fifty:
+                out.append(([two, hundred, fifty, r], 250 * R, 'ordinal'))
+        if R == 1000 and millions and three and five and hundred and hundred in rnd:
+            out.append(([three, millions, five, hundred, r], 3500000, 'ordinal'))
+    return out
+
+
+def rule_compose(chk):
+    from decimal import Decimal
+    ev = Ev()
+    idx = ev.idx
+    chk.rule('C04.compose', 'BaseNumberParser.__get_int_value composes multiplier x scale / round-ordinal token lists to the arithmetic '
+                            'value (interpreted per culture configuration)', floor=4, control=True)
+    bnp = idx.cls('recognizers_number.number.parsers.BaseNumberParser')
+    giv = bnp.methods.get('__get_int_value')
+    init = bnp.methods.get('__init__')
+    if giv is None or init is None:
+        raise AnalysisError('anchor vanished: BaseNumberParser.__get_int_value / __init__')
+    rset_expr = None
+    for n in ast.walk(init):
+        tgt = n.targets[0] if isinstance(n, ast.Assign) and len(n.targets) == 1 else (n.target if isinstance(n, ast.AnnAssign) else None)
+        if tgt is not None and is_self_attr_c04(tgt, 'round_number_set') and n.value is not None:
+            rset_expr = n.value
+    if rset_expr is None:
+        raise AnalysisError('BaseNumberParser.__init__ does not assign self.round_number_set')
+    chk.consulted(bnp.mod.path)
+    regs = number_registrations(ev)
+    seen = set()
+    for nr in regs:
+        code = nr.reg.culture
+        if nr.reg.model_cls.name != 'OrdinalModel' or code not in LEXICON or nr.config_cls.qual in seen:
+            continue
+        seen.add(nr.config_cls.qual)
+        cfg = nr.config_cls
+        attrs = {}
+        for s_ in ('cardinal_number_map', 'ordinal_number_map', 'round_number_map', 'written_integer_separator_texts'):
+            sl = slot(ev, cfg, s_)
+            if sl.value is None:
+                raise AnalysisError('%s.%s wiring not evaluable (%s)' % (cfg.name, s_, sl.origin))
+            attrs['self.config.' + s_] = sl.value
+        where = 'BaseNumberParser.__get_int_value[%s]' % code
+        ti = TableInterp(idx, bnp, where, attrs, ev)
+        rset = ti.ev(rset_expr, {}, 0)
+        if not isinstance(rset, list):
+            raise AnalysisError('%s: round_number_set does not evaluate to a list' % where)
+        attrs['self.round_number_set'] = rset
+        probes = compose_probes(LEXICON[code], attrs['self.config.round_number_map'], attrs['self.config.ordinal_number_map'])
+        if not probes:
+            raise AnalysisError('%s: no composition probe could be built from the lexicon' % code)
+        bad = []
+        for toks, want, kind in probes:
+            try:
+                got = TableInterp(idx, bnp, where, attrs, ev).call(giv, [list(toks)])
+            except ProbeUnvalued as pu:
+                bad.append('%s %s: token %r is in neither the cardinal nor the ordinal map' % (kind, ' '.join(toks), pu.token))
+                continue
+            if not isinstance(got, (Decimal, int)) or Decimal(got) != Decimal(want):
+                bad.append('%s %s -> %s (expected %d)' % (kind, ' '.join(toks), got, want))
+        nord = sum(1 for _t, _w, k in probes if k == 'ordinal')
+        chk.judge(not bad, 'C04.compose', bnp.mod.path, '__get_int_value under %s[%s]' % (cfg.name, code),
+                  '%d token lists (%d ending in a round ordinal), %d wrong%s' % (len(probes), nord, len(bad), (': ' + '; '.join(bad)) if bad else ''),
+                  'culture %s: the integer composition mis-values %s - round_number_set (%d words; BaseNumberParser.__init__) decides '
+                  'which words close a multiplier group' % (code, '; '.join(bad[:5]), len(rset)), giv.lineno)
+    if not seen:
+        raise AnalysisError('no OrdinalModel registration with a lexicon found')
+    # control: the same interpretation with the round ordinal words removed from round_number_set
+    en = next((nr.config_cls for nr in regs if nr.reg.culture == 'en-us'), None)
+    if en is not None:
+        attrs = {'self.config.' + s_: slot(ev, en, s_).value for s_ in ('cardinal_number_map', 'ordinal_number_map', 'round_number_map',
+                                                                        'written_integer_separator_texts')}
+        attrs['self.round_number_set'] = [k for k in attrs['self.config.round_number_map'] if k not in attrs['self.config.ordinal_number_map']]
+        got = TableInterp(idx, bnp, 'control', attrs, ev).call(giv, [['one', 'hundred', 'thousandth']])
+        chk.control('C04.compose', Decimal(got) != Decimal(100000))
+
+
+def is_self_attr_c04(n, attr):
+    return isinstance(n, ast.Attribute) and isinstance(n.value, ast.Name) and n.value.id == 'self' and n.attr == attr
+
+
+_run_before_compose = run
+
+
+def run(chk):       # noqa: F811
+    _run_before_compose(chk)
+    rule_compose(chk)
